@@ -1,6 +1,7 @@
 import PlzVerif.Lemmas.TestCache
 import PlzVerif.Model.TestFacts
 import PlzVerif.Model.BuildFacts
+import PlzVerif.Model.TestE2E
 /-!
 C11  Test results are reused only when the test's runtime inputs are unchanged; failing results are never
      reused; so the pass/fail outcome of an incremental `plz test` equals that of a fresh run on the same tree.
@@ -48,11 +49,11 @@ theorem facts_cmp : Build.generatedFacts.cmpRule = true ∧ Build.generatedFacts
 
 /-- One `plz test` / history in the model at the regenerated facts. -/
 abbrev plzTest := @testAll K A F N C S H A' S' G _ _ _ _ _ _ TestCache.generatedFacts ruleSerRT pathSer outcome
-  Build.generatedFacts (mvCoded Build.generatedFacts pathSer) exec ruleSer
+  Build.generatedFacts (mvCoded Build.generatedFacts pathSer) rsCoded exec ruleSer
 abbrev hist := @runHistT K A F N C S H A' S' G _ _ _ _ _ _ TestCache.generatedFacts ruleSerRT pathSer outcome
-  Build.generatedFacts (mvCoded Build.generatedFacts pathSer) exec ruleSer
+  Build.generatedFacts (mvCoded Build.generatedFacts pathSer) rsCoded exec ruleSer
 abbrev fresh := @freshRun K A F N C S H A' S' G _ _ _ _ _ _ TestCache.generatedFacts ruleSerRT pathSer outcome
-  Build.generatedFacts (mvCoded Build.generatedFacts pathSer) exec ruleSer
+  Build.generatedFacts (mvCoded Build.generatedFacts pathSer) rsCoded exec ruleSer
 
 /-! ### Failing results are never stored, never reused (full; no injectivity) -/
 
@@ -62,9 +63,9 @@ theorem C11_no_fail_reuse (history : List (TOp K A F N C S H A' G (RStamp S' G N
     (∀ k s, (hist exec ruleSer pathSer ruleSerRT outcome history TState.empty).res k = some s → s.res = .pass) ∧
     (∀ q s, (hist exec ruleSer pathSer ruleSerRT outcome history TState.empty).rcache q = some s → s.res = .pass) := by
   have := runHistT_rinv TestCache.generatedFacts ruleSerRT pathSer outcome Build.generatedFacts
-    (mvCoded Build.generatedFacts pathSer) exec ruleSer
+    (mvCoded Build.generatedFacts pathSer) rsCoded exec ruleSer
     (fun (_ : A') (_ : List (N × C)) => True) facts_store history TState.empty (rinv_empty _ _ _ _ _) (rcinv_empty _ _ _ _ _)
-    (admHist_true _ _ _ _ _ _ _ _ history _)
+    (admHist_true _ _ _ _ _ _ _ _ _ history _)
   exact ⟨fun k s h => (this.1 k s h).1, fun q s h => (this.2 q.1 q.2 s h).2.1⟩
 
 /-- After any history, whatever a `plz test` reports as cached is a pass, and the command was not executed. -/
@@ -73,9 +74,9 @@ theorem C11_cached_is_pass (history : List (TOp K A F N C S H A' G (RStamp S' G 
     ∀ k rep, (k, some rep) ∈ (plzTest exec ruleSer pathSer ruleSerRT outcome r sel tsel fl
         (hist exec ruleSer pathSer ruleSerRT outcome history TState.empty)).2.2 →
       rep.cached = true → rep.res = .pass ∧ rep.runs = 0 := by
-  have hinv := runHistT_rinv TestCache.generatedFacts ruleSerRT pathSer outcome Build.generatedFacts (mvCoded Build.generatedFacts pathSer) exec ruleSer
+  have hinv := runHistT_rinv TestCache.generatedFacts ruleSerRT pathSer outcome Build.generatedFacts (mvCoded Build.generatedFacts pathSer) rsCoded exec ruleSer
     (fun (_ : A') (_ : List (N × C)) => True) facts_store history TState.empty (rinv_empty _ _ _ _ _) (rcinv_empty _ _ _ _ _)
-    (admHist_true _ _ _ _ _ _ _ _ history _)
+    (admHist_true _ _ _ _ _ _ _ _ _ history _)
   intro k rep hm hc
   exact testList_cached_pass TestCache.generatedFacts ruleSerRT pathSer outcome (fun (_ : A') (_ : List (N × C)) => True) facts_store r tsel fl
     _ _ _ r.repo.targets _ _ hinv.1 hinv.2 (fun _ _ _ _ _ _ _ => trivial) k rep hm hc
@@ -119,9 +120,9 @@ theorem outcome_eq_fresh_on (P : A' → List (N × C) → Prop)
     (hR : Function.Injective ruleSer) (hP : Function.Injective pathSer)
     (hRT : InjOn (G := G) TestCache.generatedFacts ruleSerRT pathSer P)
     (history : List (TOp K A F N C S H A' G (RStamp S' G N H))) (r : TRepo K A F N C A' G) (sel tsel : K → Bool) (fl : Flags)
-    (hadm : AdmHist TestCache.generatedFacts ruleSerRT pathSer outcome Build.generatedFacts (mvCoded Build.generatedFacts pathSer) exec ruleSer P
+    (hadm : AdmHist TestCache.generatedFacts ruleSerRT pathSer outcome Build.generatedFacts (mvCoded Build.generatedFacts pathSer) rsCoded exec ruleSer P
       (history ++ [.test r sel tsel fl]) TState.empty)
-    (hadmF : Adm P r tsel (buildPhase pathSer Build.generatedFacts (mvCoded Build.generatedFacts pathSer) exec ruleSer r sel
+    (hadmF : Adm P r tsel (buildPhase pathSer Build.generatedFacts (mvCoded Build.generatedFacts pathSer) rsCoded exec ruleSer r sel
       (fun _ => none) (fun _ => none)).1 r.repo.targets)
     (hwf : WFList sel [] r.repo.targets) (hdc : DataClosed r tsel (selKeys sel r.repo.targets)) :
     outcomes (plzTest exec ruleSer pathSer ruleSerRT outcome r sel tsel fl
@@ -129,9 +130,9 @@ theorem outcome_eq_fresh_on (P : A' → List (N × C) → Prop)
     outcomes (fresh exec ruleSer pathSer ruleSerRT outcome r sel tsel) := by
   -- split the admissibility of history ++ [test]
   have hsplit : ∀ (ops : List (TOp K A F N C S H A' G (RStamp S' G N H))) (st : TState K C S N H (RStamp S' G N H)),
-      AdmHist TestCache.generatedFacts ruleSerRT pathSer outcome Build.generatedFacts (mvCoded Build.generatedFacts pathSer) exec ruleSer P (ops ++ [.test r sel tsel fl]) st →
-      AdmHist TestCache.generatedFacts ruleSerRT pathSer outcome Build.generatedFacts (mvCoded Build.generatedFacts pathSer) exec ruleSer P ops st ∧
-      Adm P r tsel (buildPhase pathSer Build.generatedFacts (mvCoded Build.generatedFacts pathSer) exec ruleSer r sel
+      AdmHist TestCache.generatedFacts ruleSerRT pathSer outcome Build.generatedFacts (mvCoded Build.generatedFacts pathSer) rsCoded exec ruleSer P (ops ++ [.test r sel tsel fl]) st →
+      AdmHist TestCache.generatedFacts ruleSerRT pathSer outcome Build.generatedFacts (mvCoded Build.generatedFacts pathSer) rsCoded exec ruleSer P ops st ∧
+      Adm P r tsel (buildPhase pathSer Build.generatedFacts (mvCoded Build.generatedFacts pathSer) rsCoded exec ruleSer r sel
         (hist exec ruleSer pathSer ruleSerRT outcome ops st).out (hist exec ruleSer pathSer ruleSerRT outcome ops st).bcache).1 r.repo.targets := by
     intro ops
     induction ops with
@@ -146,34 +147,34 @@ theorem outcome_eq_fresh_on (P : A' → List (N × C) → Prop)
       | evictB keep => exact ih _ h
       | evictR keep => exact ih _ h
   obtain ⟨hadmH, hadmL⟩ := hsplit history TState.empty hadm
-  have hinv := runHistT_inv TestCache.generatedFacts ruleSerRT pathSer outcome Build.generatedFacts (mvCoded Build.generatedFacts pathSer)
-    exec ruleSer (mvCoded_ok _ _) hP history TState.empty (inv_empty exec ruleSer pathSer) (invC_empty exec ruleSer pathSer)
-  have hrinv := runHistT_rinv TestCache.generatedFacts ruleSerRT pathSer outcome Build.generatedFacts (mvCoded Build.generatedFacts pathSer) exec ruleSer
+  have hinv := runHistT_inv TestCache.generatedFacts ruleSerRT pathSer outcome Build.generatedFacts (mvCoded Build.generatedFacts pathSer) rsCoded
+    exec ruleSer (mvCoded_ok _ _) (fun _ _ => rfl) hP history TState.empty (inv_empty exec ruleSer pathSer) (invC_empty exec ruleSer pathSer)
+  have hrinv := runHistT_rinv TestCache.generatedFacts ruleSerRT pathSer outcome Build.generatedFacts (mvCoded Build.generatedFacts pathSer) rsCoded exec ruleSer
     P facts_store history TState.empty (rinv_empty _ _ _ _ _) (rcinv_empty _ _ _ _ _) hadmH
   -- both reports are the expected outcomes over the respective plz-out
   have hL := (testList_spec TestCache.generatedFacts ruleSerRT pathSer outcome P facts_store r tsel fl
     (hist exec ruleSer pathSer ruleSerRT outcome history TState.empty).out
-    (buildPhase pathSer Build.generatedFacts (mvCoded Build.generatedFacts pathSer) exec ruleSer r sel
+    (buildPhase pathSer Build.generatedFacts (mvCoded Build.generatedFacts pathSer) rsCoded exec ruleSer r sel
       (hist exec ruleSer pathSer ruleSerRT outcome history TState.empty).out
       (hist exec ruleSer pathSer ruleSerRT outcome history TState.empty).bcache).1
-    (buildPhase pathSer Build.generatedFacts (mvCoded Build.generatedFacts pathSer) exec ruleSer r sel
+    (buildPhase pathSer Build.generatedFacts (mvCoded Build.generatedFacts pathSer) rsCoded exec ruleSer r sel
       (hist exec ruleSer pathSer ruleSerRT outcome history TState.empty).out
       (hist exec ruleSer pathSer ruleSerRT outcome history TState.empty).bcache).2.2 r.repo.targets _ _ hrinv.1 hrinv.2 hadmL).2.2 facts_verify hRT
   have hF := (testList_spec TestCache.generatedFacts ruleSerRT pathSer outcome P facts_store r tsel ({} : Flags)
     (fun _ => none)
-    (buildPhase pathSer Build.generatedFacts (mvCoded Build.generatedFacts pathSer) exec ruleSer r sel (fun _ => none) (fun _ => none)).1
-    (buildPhase pathSer Build.generatedFacts (mvCoded Build.generatedFacts pathSer) exec ruleSer r sel (fun _ => none) (fun _ => none)).2.2
+    (buildPhase pathSer Build.generatedFacts (mvCoded Build.generatedFacts pathSer) rsCoded exec ruleSer r sel (fun _ => none) (fun _ => none)).1
+    (buildPhase pathSer Build.generatedFacts (mvCoded Build.generatedFacts pathSer) rsCoded exec ruleSer r sel (fun _ => none) (fun _ => none)).2.2
     r.repo.targets (fun _ => none) (fun _ => none) (rinv_empty _ _ _ _ _) (rcinv_empty _ _ _ _ _) hadmF).2.2 facts_verify hRT
   -- the two plz-outs agree on the closure (C01 / C02: both equal the clean build)
-  have hA := buildPhase_clean pathSer Build.generatedFacts (mvCoded Build.generatedFacts pathSer) exec ruleSer (mvCoded_ok _ _) facts_cmp hR hP r sel
+  have hA := buildPhase_clean pathSer Build.generatedFacts (mvCoded Build.generatedFacts pathSer) rsCoded exec ruleSer (mvCoded_ok _ _) (fun _ _ => rfl) facts_cmp hR hP r sel
     _ _ hinv.1 hinv.2 hwf
-  have hB := buildPhase_clean pathSer Build.generatedFacts (mvCoded Build.generatedFacts pathSer) exec ruleSer (mvCoded_ok _ _) facts_cmp hR hP r sel
+  have hB := buildPhase_clean pathSer Build.generatedFacts (mvCoded Build.generatedFacts pathSer) rsCoded exec ruleSer (mvCoded_ok _ _) (fun _ _ => rfl) facts_cmp hR hP r sel
     (fun _ => none) (fun _ => none) (inv_empty exec ruleSer pathSer) (invC_empty exec ruleSer pathSer) hwf
   have hag : AgreeOn (selKeys sel r.repo.targets)
-      (buildPhase pathSer Build.generatedFacts (mvCoded Build.generatedFacts pathSer) exec ruleSer r sel
+      (buildPhase pathSer Build.generatedFacts (mvCoded Build.generatedFacts pathSer) rsCoded exec ruleSer r sel
         (hist exec ruleSer pathSer ruleSerRT outcome history TState.empty).out
         (hist exec ruleSer pathSer ruleSerRT outcome history TState.empty).bcache).1
-      (buildPhase pathSer Build.generatedFacts (mvCoded Build.generatedFacts pathSer) exec ruleSer r sel (fun _ => none) (fun _ => none)).1 := by
+      (buildPhase pathSer Build.generatedFacts (mvCoded Build.generatedFacts pathSer) rsCoded exec ruleSer r sel (fun _ => none) (fun _ => none)).1 := by
     intro k hk
     obtain ⟨c1, s1, h1, l1⟩ := hA k hk
     obtain ⟨c2, s2, h2, l2⟩ := hB k hk
@@ -195,7 +196,7 @@ theorem C11_outcome_eq_fresh (hR : Function.Injective ruleSer) (hP : Function.In
         (hist exec ruleSer pathSer ruleSerRT outcome history TState.empty)).2.2 =
     outcomes (fresh exec ruleSer pathSer ruleSerRT outcome r sel tsel) :=
   outcome_eq_fresh_on exec ruleSer pathSer ruleSerRT outcome (fun (_ : A') (_ : List (N × C)) => True) hR hP hRT history r sel tsel fl
-    (admHist_true _ _ _ _ _ _ _ _ _ _) (fun _ _ _ _ _ _ _ => trivial) hwf hdc
+    (admHist_true _ _ _ _ _ _ _ _ _ _ _) (fun _ _ _ _ _ _ _ => trivial) hwf hdc
 
 /-- Where the property holds AS CODED (names not hashed): when the names under which a test sees its runtime
     files are determined by its runtime attributes — true whenever all data entries are source files or
@@ -204,10 +205,10 @@ theorem C11_outcome_eq_fresh (hR : Function.Injective ruleSer) (hP : Function.In
 theorem C11_outcome_eq_fresh_partial (names : A' → List N)
     (hR : Function.Injective ruleSer) (hP : Function.Injective pathSer) (hRTr : Function.Injective ruleSerRT)
     (history : List (TOp K A F N C S H A' G (RStamp S' G N H))) (r : TRepo K A F N C A' G) (sel tsel : K → Bool) (fl : Flags)
-    (hadm : AdmHist TestCache.generatedFacts ruleSerRT pathSer outcome Build.generatedFacts (mvCoded Build.generatedFacts pathSer) exec ruleSer
+    (hadm : AdmHist TestCache.generatedFacts ruleSerRT pathSer outcome Build.generatedFacts (mvCoded Build.generatedFacts pathSer) rsCoded exec ruleSer
       (fun a f => f.map Prod.fst = names a) (history ++ [.test r sel tsel fl]) TState.empty)
     (hadmF : Adm (fun a f => f.map Prod.fst = names a) r tsel
-      (buildPhase pathSer Build.generatedFacts (mvCoded Build.generatedFacts pathSer) exec ruleSer r sel (fun _ => none) (fun _ => none)).1 r.repo.targets)
+      (buildPhase pathSer Build.generatedFacts (mvCoded Build.generatedFacts pathSer) rsCoded exec ruleSer r sel (fun _ => none) (fun _ => none)).1 r.repo.targets)
     (hwf : WFList sel [] r.repo.targets) (hdc : DataClosed r tsel (selKeys sel r.repo.targets)) :
     outcomes (plzTest exec ruleSer pathSer ruleSerRT outcome r sel tsel fl
         (hist exec ruleSer pathSer ruleSerRT outcome history TState.empty)).2.2 =
@@ -248,7 +249,7 @@ def tree (outName : Nat) : TRepo Nat Nat Nat Nat Nat Nat Nat :=
 def all : Nat → Bool := fun _ => true
 abbrev T := TState Nat Nat Nat Nat Nat (RStamp Nat Nat Nat Nat)
 def run (r : TRepo Nat Nat Nat Nat Nat Nat Nat) (st : T) :=
-  testAll TestCache.generatedFacts id id outcomeW Build.generatedFacts (mvCoded Build.generatedFacts id) execW id r all (fun k => k == 1) {} st
+  testAll TestCache.generatedFacts id id outcomeW Build.generatedFacts (mvCoded Build.generatedFacts id) rsCoded execW id r all (fun k => k == 1) {} st
 def st1 : T := (run (tree 1) TState.empty).1
 end Witness
 
@@ -259,7 +260,7 @@ open Witness in
 theorem C11_witness_stale_pass :
     (run (tree 1) TState.empty).2.2 = [(1, some ⟨.pass, false, 1⟩)] ∧
     (run (tree 2) st1).2.2 = [(1, some ⟨.pass, true, 0⟩)] ∧
-    freshRun TestCache.generatedFacts id id outcomeW Build.generatedFacts (mvCoded Build.generatedFacts id) execW id (tree 2) all (fun k => k == 1)
+    freshRun TestCache.generatedFacts id id outcomeW Build.generatedFacts (mvCoded Build.generatedFacts id) rsCoded execW id (tree 2) all (fun k => k == 1)
       = [(1, some ⟨.error, false, 1⟩)] := by
   decide
 
@@ -278,7 +279,7 @@ def all : Nat → Bool := fun _ => true
 abbrev T := TState Nat Dir Nat Nat (List Nat) (RStamp (List Nat) Nat Nat (List Nat))
 def execD (_ : Nat) (_ : List (Nat × Dir)) : Dir := []
 def run (r : TRepo Nat Nat Nat Nat Dir (List Nat) Nat) (st : T) :=
-  testAll TestCache.generatedFacts id pserBad outcomeD Build.generatedFacts (mvCoded Build.generatedFacts pserBad) execD id r all (fun k => k == 1) {} st
+  testAll TestCache.generatedFacts id pserBad outcomeD Build.generatedFacts (mvCoded Build.generatedFacts pserBad) rsCoded execD id r all (fun k => k == 1) {} st
 /-- data entries `[ab, c]` vs `[a, bc]` written unframed: names as digit lists, pre-image = their concatenation -/
 def ruleBad (names : List (List Nat)) : List Nat := names.flatten
 end Witness2
@@ -287,7 +288,7 @@ open Witness2 in
 /-- A file inside a data DIRECTORY renamed 1 → 2 (same bytes): cached pass, fresh error (C09's root cause). -/
 theorem C11_witness_dir_entry_renamed :
     (run (treeD [(2, 7)]) (run (treeD [(1, 7)]) TState.empty).1).2.2 = [(1, some ⟨.pass, true, 0⟩)] ∧
-    freshRun TestCache.generatedFacts id pserBad outcomeD Build.generatedFacts (mvCoded Build.generatedFacts pserBad) execD id (treeD [(2, 7)]) all (fun k => k == 1)
+    freshRun TestCache.generatedFacts id pserBad outcomeD Build.generatedFacts (mvCoded Build.generatedFacts pserBad) rsCoded execD id (treeD [(2, 7)]) all (fun k => k == 1)
       = [(1, some ⟨.error, false, 1⟩)] := by
   decide
 
@@ -295,6 +296,17 @@ open Witness2 in
 /-- Unframed data names collide in the runtime rule pre-image (C08's root cause): `[ab, c]` and `[a, bc]`. -/
 theorem C11_witness_unframed_data_names : ruleBad [[1, 2], [3]] = ruleBad [[1], [2, 3]] ∧ [[1, 2], [3]] ≠ [[1], [2, 3]] := by
   decide
+
+/-- `no_test_output` is written into no hash: in the concrete end-to-end instance two test definitions that differ
+    only in that attribute have the same runtime rule pre-image and different outcomes on the same (empty) runtime
+    directory — `ruleSerRT` is not injective, so the hypothesis of `C11_outcome_eq_fresh_partial` fails too. -/
+theorem C11_witness_no_test_output_not_hashed :
+    ∃ a b : PlzVerif.TestE2E.TAttrs, PlzVerif.TestE2E.ruleSerRT a = PlzVerif.TestE2E.ruleSerRT b ∧
+      PlzVerif.TestE2E.outcomeT a [] = .pass ∧ PlzVerif.TestE2E.outcomeT b [] = .error :=
+  ⟨{ b := { label := "//p:t", cmd := .cat, srcs := [], out := "" }, kind := .puretest, data := [], tcmd := .tt,
+     noOutput := true, writes := false },
+   { b := { label := "//p:t", cmd := .cat, srcs := [], out := "" }, kind := .puretest, data := [], tcmd := .tt,
+     noOutput := false, writes := false }, rfl, rfl, rfl⟩
 
 namespace WitnessC
 /-! With the artifact cache: a test whose data file holds `c`; it passes iff the file holds 7. -/
@@ -305,7 +317,7 @@ def treeC (c : Nat) : TRepo Nat Nat Nat Nat Nat Nat Nat :=
     tests := fun k => if k = 1 then some ⟨5, false, true, [.inl 3]⟩ else none, ownName := id, cfg := 0, cacheOn := true }
 abbrev T := TState Nat Nat Nat Nat Nat (RStamp Nat Nat Nat Nat)
 def run (r : TRepo Nat Nat Nat Nat Nat Nat Nat) (st : T) :=
-  testAll TestCache.generatedFacts id id outcomeC Build.generatedFacts (mvCoded Build.generatedFacts id) (fun _ _ => 0) id r
+  testAll TestCache.generatedFacts id id outcomeC Build.generatedFacts (mvCoded Build.generatedFacts id) rsCoded (fun _ _ => 0) id r
     (fun _ => true) (fun k => k == 1) {} st
 def s1 : T := (run (treeC 7) TState.empty).1
 def s2 : T := (run (treeC 8) s1).1
